@@ -141,6 +141,7 @@ class GenB:
         self.pairs = []
         self.shipped_tokens = set()
         self.extreme = set()
+        self.unsized = set()
         self.decl_count = {}
         self.first_decl = {}
         self.used_as_expr = set()
@@ -170,6 +171,16 @@ class GenB:
         sized = set(self.snap.get("shipped_sized") or [])
         scales = set(self.snap.get("scale_units") or [])
         for t, d in sorted(self.model.base_dim.items()):
+            if self.prop == "C07" and t not in self.SHIPPED_EXCLUDED and (t in scales or t not in sized):
+                # C07 judges only HOW a conversion fails, not its value: scale (offset) units and
+                # units without a solved size take part too
+                if not (d and d[0] != 0):
+                    self.unit_ref[t] = ["u", t]
+                    self.by_dim.setdefault(d, []).append(t)
+                    self.shipped_tokens.add(t)
+                    self.extreme.add(t)      # never a partner of a synthetic declaration (no size)
+                    self.unsized.add(t)
+                continue
             if t not in sized or t in scales or t in self.SHIPPED_EXCLUDED:
                 continue
             if d and d[0] != 0:
@@ -298,7 +309,7 @@ class GenB:
                 continue
             fv = tuple([0] * i + [1])
             cands = [c for c in self.by_dim.get(M.d_norm(fv), []) if c not in self.extreme] or \
-                self.by_dim.get(M.d_norm(fv), [])
+                [c for c in self.by_dim.get(M.d_norm(fv), []) if c not in self.unsized]
             if not cands:
                 return None
             # possibly split the exponent over two different units of that dimension
@@ -406,7 +417,8 @@ class GenB:
         unit (like light-year = c * year):  t = r * (derived * fundamental^k ...)."""
         rng = self.rng
         d = self.model.base_dim[t]
-        ders = [u for u in self.unit_ref if M.d_degree(self.model.base_dim[u]) > 1 and self.decl_count.get(u)]
+        ders = [u for u in self.unit_ref if M.d_degree(self.model.base_dim[u]) > 1 and self.decl_count.get(u)
+                and u not in self.unsized]
         rng.shuffle(ders)
         for u in ders:
             rest = M.d_div(d, self.model.base_dim[u])
@@ -695,7 +707,8 @@ class GenB:
                     continue   # cannot be declared with the units this system has: drop it
                 d = self.model.base_dim[t]
                 done = False
-                same_d = [x for x in self.by_dim.get(d, []) if x != t and self.decl_count.get(x)]
+                same_d = [x for x in self.by_dim.get(d, []) if x != t and self.decl_count.get(x)
+                          and x not in self.unsized]
                 if M.d_degree(d) > 1 and same_d and not self.decl_count.get(t) and rng.random() < 0.5:
                     # an "indirect" derived unit: defined only relative to another unit of
                     # its own dimension (like cup = 1/2 pint), not to a compound
@@ -716,7 +729,7 @@ class GenB:
                 elif M.d_degree(d) == 1 and rng.random() < 0.15 and self.product_definition(t):
                     self.probe_product_defined = True
                 else:
-                    same = [x for x in self.by_dim.get(d, []) if x != t]
+                    same = [x for x in self.by_dim.get(d, []) if x != t and x not in self.unsized]
                     if same:
                         o = rng.choice(same)
                         done = self.emit_declare(t, ((), ((o, 1),)),
